@@ -31,6 +31,25 @@ pub fn run(ctx: &Ctx, p: &str) {
         if !rr.ok() { ctx.violation(format!("{p}:cli:signed-size:{kn}:refused"), format!("a well-formed transaction with {n} bytes of calldata is refused: {}", rr.describe()), replay) }
         else if rr.line() != want { ctx.violation(format!("{p}:cli:signed-size:{kn}:wrong-output"), format!("with {n} bytes of calldata the CLI printed {} ({} hex digits); the reference signed transaction is {} ({} hex digits)", trunc(&rr.line(), 60), rr.line().len(), trunc(&want, 60), want.len()), replay) }
     });
+    // size x signature: a signature whose r or s has a zero top byte is ONE BYTE SHORTER in RLP. Around every length at which the
+    // signed payload crosses 55 / 255 / 65535 bytes, transactions whose own signature has a short scalar are looked for by
+    // varying the nonce (the reference computes the signature; about one in forty has one) and each is run on the CLI
+    let mut near: Vec<usize> = Vec::new(); for t in [55usize, 255, 65_535] { for n in t.saturating_sub(150)..=t.saturating_sub(60) { near.push(n); } } // calldata lengths whose signed payload lies around t for every kind
+    let nonces: u64 = if ctx.thorough() { 120 } else { 24 };
+    ctx.sweep("cli-signed-size-short-scalar", &format!("4 kinds x calldata lengths that put the signed payload around 55 / 255 / 65535 bytes x nonces 0..{nonces}: every transaction whose own RFC 6979 signature has r or s below 2^248 (found with the reference) is signed on the CLI: the reference encoding"), (near.len() * kinds.len()) as u64 * nonces, |i| {
+        let (kn, kind, with_chain) = kinds[i as usize % kinds.len()]; let n = near[(i as usize / kinds.len()) % near.len()]; let nonce = i / (kinds.len() * near.len()) as u64;
+        let mut t = txjson::template(kind, with_chain); t.data = filler_bytes(ctx.seed, 0x5151, n); t.nonce = refmodel::nat::Nat::from_u64(nonce);
+        let d = t.signing_hash(); let (r, s, odd, _) = curve.sign_rfc6979(&key, &d);
+        if r.to_be()[0] != 0 && s.to_be()[0] != 0 { ctx.eval("short-scalar:full-width-skipped"); return; }
+        let want = format!("0x{}", hex(&t.signed_payload(odd, &r.to_nat(), &s.to_nat()))); let text = txjson::tx_json(&t, Spell::Auto).to_text();
+        let mut cmd = Cmd::new(&["sign", "--mnemonic", GANACHE, "transaction", "-"]).stdin(text.as_bytes()); if !with_chain { cmd = cmd.arg("--allow-missing-relay-protection"); }
+        let rr = cmd.run(Build::Release); let total = (want.len() - 2) / 2;
+        let replay = serde_json::json!({"sweep": "cli-signed-size-short-scalar", "index": i, "entry": "CLI", "command": trunc(&cmd.shown(), 300), "kind": kn, "data_len": n, "nonce": nonce, "signed_size": total});
+        ctx.sample("cli-signed-size-short-scalar", || replay.clone());
+        if rr.crashed() { ctx.eval(format!("short-scalar:{kn}:{}", rr.crash_kind())); ctx.panic_violation(format!("{p}:cli:signed-size-short-scalar:{kn}:{}", rr.crash_kind()), rr.describe(), replay); return; }
+        ctx.eval(format!("short-scalar:{kn}:signed-size-class={}", match total { 0..=57 => "<=57", 58..=257 => "58..=257", 258..=65_538 => "258..=65538", _ => ">65538" }));
+        if !rr.ok() || rr.line() != want { ctx.violation(format!("{p}:cli:signed-size-short-scalar:{kn}:wrong-output"), format!("{n} bytes of calldata, nonce {nonce}, a signature with a short scalar (signed size {total}): the CLI printed {} ({:?}); the reference signed transaction is {}", trunc(&rr.line(), 100), rr.status, trunc(&want, 100)), replay) }
+    });
     // the same for the access list: the number of entries and of storage keys moves the total in steps of 21 / 33 bytes
     let al: Vec<(usize, usize, usize)> = (0..=7).flat_map(|a| (0..=7).flat_map(move |k| [0usize, 60, 150].map(move |n| (a, k, n)))).collect();
     ctx.sweep("cli-signed-size-access-list", "sign transaction for access lists of 0..=7 entries x 0..=7 storage keys each x calldata of 0 / 60 / 150 bytes x {EIP-2930, EIP-1559}: the reference encoding", (al.len() * 2) as u64, |i| {
